@@ -23,4 +23,37 @@ PROPS = {
                                      "not modelled: object.record / RegisterTrie (which words the REPL inserts)"],
         "assumptions": ["Go pointer sharing of the end marker is unobservable (Insert never descends into it; shown by the model's case split and exercised by the suite)"],
     },
+    "C16": {
+        "proof_modules": ["GrolProofs.Props.C16"],
+        "theorems": ["Grol.Lexer.C16.cases", "Grol.Lexer.C16.progress", "Grol.Lexer.C16.tiling", "Grol.Lexer.C16.flags",
+                     "Grol.Lexer.C16.literal_span", "Grol.Lexer.C16.string_span", "Grol.Lexer.C16.linecomment_span",
+                     "Grol.Lexer.C16.blockcomment_span", "Grol.Lexer.C16.no_nil_no_panic", "Grol.Lexer.C16.sticky_step",
+                     "Grol.Lexer.C16.sticky", "Grol.Lexer.C16.marker_within", "Grol.Lexer.C16.monotone",
+                     "Grol.Lexer.C16.lookupIdent_keyword", "Grol.Lexer.C16.keywords_never_ident",
+                     "Grol.Lexer.C16.intern_unique", "Grol.Lexer.C16.interning_partial", "Grol.Lexer.C16.next_wf",
+                     "Grol.Lexer.C16.initTable_nodup", "Grol.Lexer.resolve_den", "Grol.Lexer.nextCore_spec", "Grol.Lexer.readStringLoop_spec",
+                     "Grol.Lexer.blockLoop_spec", "Grol.Lexer.readNumber_spec", "Grol.Lexer.skipWhitespace_spec"],
+        "suites": ["lex"],
+        "rule": "lex suite: every case is one byte string in one lexer mode (f = lexer.NewBytes, l = lexer.NewLineMode); the observation is "
+                "every NextToken call up to the first end marker plus 3 more calls (type, literal, Pos before/after, HadWhitespace, "
+                "HadNewline, pointer identity numbered by first appearance, LastNewLine, line number) and CurrentLine at the end. "
+                "Families: one dump of the token tables (type names, keywords, cTokens, c2Tokens, pointer identities); hand-picked neighbours "
+                "of the three repaired defects; exhaustive = all strings of length <=3 (quick) / <=4 (thorough) over the 39-byte alphabet "
+                "0 1 9 a e E x b _ n u U f i . + - \" ` \\ / * = ! : < > & | ( { space \\n \\t \\r NUL 0x80 0xc2 0xa0, both modes; "
+                "20k (quick) / 300k (thorough) random strings (alphabet soup, token-fragment soup, uniform bytes); every examples/*.gr and "
+                "tests/*.gr whole in both modes plus 12 (quick) / 150 (thorough) windows of each with up to 3 byte mutations. "
+                "non-trivial = at least one token before the end marker; distinct = distinct (mode, input) line.",
+        "exhaustive_note": "strings of length <=3 (quick) / <=4 (thorough) over the 39-byte significant alphabet, both modes, are enumerated completely",
+        "trusted_base": COMMON_TB + ["modelled: lexer/lexer.go (all of it: NextToken, skipWhitespace, readChar/peekChar past the end, readNumber, "
+                                     "readIdentifier, readString with readHex/readUnicode16/32 and utf8.AppendRune, readLineComment with "
+                                     "strings.TrimSpace, readBlockComment, CurrentLine, both modes), token/token.go (types, Init tables, "
+                                     "LookupIdent, ConstantTokenChar(2), Intern/InternToken as an explicit table)",
+                                     "token tables in lean/Grol/Token.lean are hand-written and compared with the running code by the `T;-` case of the suite "
+                                     "(Type.String() names in iota order, LookupIdent of every lower-cased name, all 256 ConstantTokenChar, all 65536 ConstantTokenChar2)",
+                                     "the executable statement (Grol.LexSuite.statement) is an independent specification (own escape decoder, UTF-8 encoder, "
+                                     "space-rune table, block-comment scanner); the theorems are about the model; the link statement<->theorems is by reading, "
+                                     "and both are evaluated on the same cases"],
+        "assumptions": ["Go's strings.TrimSpace / unicode.IsSpace / utf8.AppendRune behave as documented (modelled by trimSpaceRight / appendRune, compared on every comment and \\u escape the generators produce)",
+                        "the interning map of the running process may already hold keys from earlier cases; pointer identities are compared only within one case, numbered by first appearance"],
+    },
 }
